@@ -68,6 +68,12 @@ V("c17a-consecutive-by-span-only", "C17", {"rule": "C17a", "contains": "are_mode
 V("c17a-consecutive-by-differences", "C17", "silent",
   (VALID, "    expected = np.arange(modes[0], modes[-1] + 1)\n\n    return len(modes) == len(expected) and bool(np.all(modes == expected))",
    "    return all(b - a == 1 for a, b in zip(modes, modes[1:]))"))
+V("c11h-module-cache-key-omits-input", "C11", {"rule": "C11h", "contains": "module cache"},
+  (GSTEPS, "def graph(state: GaussianState, instruction: Instruction, shots: int) -> List[Branch]:", "_graph_cache: dict = {}\n\n\ndef graph(state: GaussianState, instruction: Instruction, shots: int) -> List[Branch]:"),
+  (GSTEPS, "    squeezings, interferometer = decompose_adjacency_matrix_into_circuit(\n        adjacency_matrix=instruction._params[\"adjacency_matrix\"],\n        mean_photon_number=instruction._params[\"mean_photon_number\"],\n        connector=state._connector,\n    )\n", "    adjacency_matrix = np.asarray(instruction._params[\"adjacency_matrix\"])\n    key = (adjacency_matrix.shape, adjacency_matrix.tobytes())\n    if key not in _graph_cache:\n        _graph_cache[key] = decompose_adjacency_matrix_into_circuit(\n            adjacency_matrix=adjacency_matrix,\n            mean_photon_number=instruction._params[\"mean_photon_number\"],\n            connector=state._connector,\n        )\n    squeezings, interferometer = _graph_cache[key]\n"))
+V("c11h-module-cache-key-complete", "C11", "silent",
+  (GSTEPS, "def graph(state: GaussianState, instruction: Instruction, shots: int) -> List[Branch]:", "_graph_cache: dict = {}\n\n\ndef graph(state: GaussianState, instruction: Instruction, shots: int) -> List[Branch]:"),
+  (GSTEPS, "    squeezings, interferometer = decompose_adjacency_matrix_into_circuit(\n        adjacency_matrix=instruction._params[\"adjacency_matrix\"],\n        mean_photon_number=instruction._params[\"mean_photon_number\"],\n        connector=state._connector,\n    )\n", "    adjacency_matrix = np.asarray(instruction._params[\"adjacency_matrix\"])\n    key = (adjacency_matrix.shape, adjacency_matrix.tobytes(), instruction._params[\"mean_photon_number\"], type(state._connector))\n    if key not in _graph_cache:\n        _graph_cache[key] = decompose_adjacency_matrix_into_circuit(\n            adjacency_matrix=adjacency_matrix,\n            mean_photon_number=instruction._params[\"mean_photon_number\"],\n            connector=state._connector,\n        )\n    squeezings, interferometer = _graph_cache[key]\n"))
 # ------------------------------------------------------------------------------------------- C20
 V("c20-sub-add", "C20", {"rule": "C20c", "contains": "Sub"}, (EXPR, "ast.Sub: op.sub", "ast.Sub: op.add"))
 V("c20-lt-le", "C20", {"rule": "C20c", "contains": "Lt"}, (EXPR, "ast.Lt: op.lt", "ast.Lt: op.le"))
